@@ -1,7 +1,7 @@
 """C12 — Task restarts stay within the configured policy.
 
 Implementation under test (real code, in-process, single-threaded):
-  * a real Experiment with one component built from a FlowIR document carrying the generated
+  * a real Experiment with one component (or several, see below) built from a FlowIR document carrying the generated
     workflowAttributes (maxRestarts / restartHookFile / restartHookOn / repeatInterval), backend local or simulator,
     real hook modules written into the package's `hooks/` directory;
   * the real ComponentState + Engine / RepeatingEngine created by tests.utils.new_controller and the real Controller;
@@ -23,6 +23,10 @@ Implementation under test (real code, in-process, single-threaded):
   The hook module on disk counts its calls: the oracle asserts, per restart-hook outcome of the property's quantifier,
   that an exit at which the hook was really called and refused (not required / not possible / failed / raising) does not
   start the task again; the model's `stepAsksHook` is compared with the call count.
+  Loader: every policy is written into a FlowIR document and read back from `job.workflowAttributes`; the oracle judges
+  restarts by the WRITTEN policy and compares it with the one the runtime reads (model: `Restart.load`).
+  Several components: experiments with 2-5 components naming different hook files with fixed, different answers, exits
+  interleaved (model: `Restart.mexec`); per component oracle + every component re-run alone on its own exits.
   Order independence: `order_suite()` is run first thing in the process, again after everything else in other orders,
   and in two child interpreters (`--order-child`): identical implementation answers are required.
 Model: lean/St4sd/Model/Restart.lean via drv-c12.  Theorems: lean/St4sd/Props/C12.lean.
@@ -59,10 +63,13 @@ PROPERTY_DEFAULT_MAX = 3  # "three by default"
 
 HOOK_SRC = '''
 import os
+FIXED = None     # (answer, variant): a hook file whose Restart() always answers the same; None: scripted per exit
+FILE = None
 def Restart(workingDirectory, restarts, componentName, log, exitReason, exitCode):
-    a = os.environ['C12_HOOK']
-    v = int(os.environ.get('C12_HOOK_VARIANT', '0'))
+    a, v = FIXED if FIXED else (os.environ['C12_HOOK'], int(os.environ.get('C12_HOOK_VARIANT', '0')))
     os.environ['C12_HOOK_CALLS'] = str(int(os.environ.get('C12_HOOK_CALLS', '0')) + 1)
+    os.environ['C12_HOOK_FILES'] = os.environ.get('C12_HOOK_FILES', '') + str(
+        FILE or os.path.basename(globals().get('__file__') or '?')) + ';'
     os.environ['C12_HOOK_SAW_RESTARTS'] = str(restarts)
     if a.startswith('ctx:'):
         return a[4:]
@@ -198,14 +205,49 @@ class FakeTask(StubProc):
 
 
 LAUNCHES = ["task", "submitError:os", "submitError:launch", "otherError"]
+DEFAULT_LISTED = ["ResourceExhausted"]   # documented default of restartHookOn when the component writes no list
+
+
+def fixed_hook_src(name, answer, variant=0):
+    """a hook file whose Restart() always gives the same answer (contents differ from file to file)"""
+    return HOOK_SRC.replace("FIXED = None ", "FIXED = (%r, %d) #" % (answer, variant), 1).replace(
+        "FILE = None", "FILE = %r" % name, 1)
+
+
+def file_src(name, spec):
+    if spec["disk"] == "fixed":
+        return fixed_hook_src(name, spec["answer"], spec.get("variant", 0))
+    return DISK_SRC[spec["disk"]]
+
+
+def own_file_name(cfg):
+    """the hook file a component uses: restartHookFile, restart.py when it names none, no file when it is ''"""
+    if cfg["hookFile"] == "":
+        return None
+    return cfg["hookFile"] or "restart.py"
+
+
+def comps_of(case):
+    """[(name, cfg)] of a case: one component `comp`, or the components of a several-components case"""
+    if "comps" in case:
+        return [(c["name"], c["cfg"]) for c in case["comps"]]
+    return [("comp", case["cfg"])]
+
+
+def own_answer(case, k):
+    """the fixed answer of component k's own hook file (None when it has no fixed-answer file)"""
+    cfg = comps_of(case)[k][1]
+    spec = (case.get("files") or {}).get(own_file_name(cfg) or "")
+    return spec["answer"] if spec and spec["disk"] == "fixed" else None
 
 
 def launch_kind(inp):
     return (inp.get("launch") or "task").split(":")[0]
 
 
-def flowir_for(cfg):
-    lines = ["components:", "- name: comp", "  command:", "    executable: echo", "    arguments: hello"]
+def flowir_for(cfg, name="comp", header=True):
+    lines = (["components:"] if header else []) + ["- name: %s" % name, "  command:", "    executable: echo",
+                                                   "    arguments: hello"]
     if cfg["backend"] == "simulator":
         lines += ["  resourceManager:", "    config:", "      backend: simulator"]
         if cfg.get("sim_restart") is not None:
@@ -224,6 +266,10 @@ def flowir_for(cfg):
     return "\n".join(lines) + "\n"
 
 
+def flowir_for_case(case):
+    return "".join(flowir_for(cfg, name, header=(k == 0)) for k, (name, cfg) in enumerate(comps_of(case)))
+
+
 def hook_files(cfg):
     if cfg["disk"] == "absent":
         return {}
@@ -231,16 +277,28 @@ def hook_files(cfg):
     return {"hooks/" + name: DISK_SRC[cfg["disk"]]}
 
 
-def model_cfg(cfg, effective_hook_on):
+def hook_files_for_case(case):
+    if "comps" not in case:
+        return hook_files(case["cfg"])
+    return {"hooks/" + name: file_src(name, spec) for name, spec in sorted(case["files"].items())}
+
+
+def written_policy(cfg):
+    return {"maxRestarts": cfg["maxRestarts"], "hookFile": cfg["hookFile"],
+            "hookOn": None if cfg["hookOn"] is None else list(cfg["hookOn"])}
+
+
+def model_cfg(cfg):
+    """the component as the model gets it: the policy as WRITTEN (the model's loader `Restart.load` gives the policy
+    the runtime sees), backend / engine kind, what importing its own hook file gives"""
     if cfg["hookFile"] == "" or cfg["disk"] in ("absent", "importerror"):
         module = "fallback"
-    elif cfg["disk"] == "scripted":
+    elif cfg["disk"] in ("scripted", "fixed"):
         module = "scripted"
     else:
         module = "broken"
     sim = cfg["backend"] == "simulator" and str(cfg.get("sim_restart") or "yes").lower() in ("yes", "true")
-    return {"maxRestarts": cfg["maxRestarts"], "hookFileNamed": bool(cfg["hookFile"]), "hookOn": list(effective_hook_on),
-            "simulator": sim, "repeating": bool(cfg["repeating"]), "hookModule": module}
+    return {"written": written_policy(cfg), "simulator": sim, "repeating": bool(cfg["repeating"]), "hookModule": module}
 
 
 class _Swallow(logging.Handler):
@@ -271,34 +329,23 @@ def _ambient_logging(level):
     return restore
 
 
-def impl_run(case, root):
-    """Runs one history on the real code. Returns {"events": [...], "hookOn": [...]} or {"error": name}."""
-    S = _setup()
-    C, E, TU = S["C"], S["E"], S["TU"]
-    cfg = case["cfg"]
-    tmp = tempfile.mkdtemp(prefix="h-", dir=root)
-    restore_logging = _ambient_logging(case.get("log"))
-    try:
-        try:
-            exp = TU.experiment_from_flowir(flowir_for(cfg), tmp, extra_files=hook_files(cfg), checkExecutables=False)
-            ctl, comps = TU.new_controller(exp)
-            # what Controller.initialise records about the stage; its subscriptions are not made: the harness
-            # delivers the post-mortem notification itself
-            ctl.currentStage = exp._stages[0]
-        except Exception as exc:  # noqa
-            return {"error": "build:" + type(exc).__name__, "detail": str(exc)[:300]}
-        comp = list(comps[0])[0]
-        eng = comp.engine
-        want = E.RepeatingEngine if cfg["repeating"] else E.Engine
-        if type(eng) is not want:
-            return {"error": "engine-type:" + type(eng).__name__}
-        hook_on = list(eng.job.workflowAttributes.get("restartHookOn", []))
-        runs = {"n": 0, "initial": 0, "created": 0}
-        flags = {"run_fails": False, "initial": False}
-        pending = []            # start observables of launches the real run() is waiting for
-        script = []             # what the next call of the task generator does
+class _Driven:
+    """one component of the experiment under test: its real ComponentState and engine with the harness task
+    generator, the wrapper around `run` and the launches the real `run()` is waiting for"""
+
+    def __init__(self, S, cfg, comp):
         import reactivex.subject
         import experiment.runtime.errors as RE
+        E = S["E"]
+        self.S, self.cfg, self.comp, self.eng = S, cfg, comp, comp.engine
+        self.runs = {"n": 0, "initial": 0, "created": 0}
+        self.flags = {"run_fails": False, "initial": False}
+        self.pending = []           # start observables of launches the real run() is waiting for
+        self.script = []            # what the next call of the task generator does
+        self.steps = 0
+        self.threads = 0            # restart threads of a RepeatingEngine attributed to this component
+        self.control = os.path.join(self.eng.job.directory, "CONTROL")
+        eng, runs, flags, pending, script = self.eng, self.runs, self.flags, self.pending, self.script
 
         def generator(job, *a, **k):
             kind, reason = script.pop(0)
@@ -329,55 +376,107 @@ def impl_run(case, root):
         eng.run = run_wrapper
         if not cfg["repeating"]:
             eng.taskGenerator = generator
+
+    def seen(self):
+        """the restart policy the runtime reads"""
+        wa = self.eng.job.workflowAttributes
+        on = wa.get("restartHookOn")
+        return {"hookOn": None if on is None else list(on), "maxRestarts": wa.get("maxRestarts"),
+                "hookFile": wa.get("restartHookFile")}
+
+    def total(self):
+        return self.runs["n"] + self.threads
+
+    def task_exits(self, inp, no_initial_run):
+        """the launch and the task exit; returns the launch label"""
+        cfg, eng, pending, script = self.cfg, self.eng, self.pending, self.script
+        reason = inp["reason"]
+        first = self.steps == 0
+        self.steps += 1
+        if inp["control"]:
+            with open(self.control, "w") as fh:
+                fh.write("dlmeso\nsteps 10\nfinish\n")
+        elif os.path.exists(self.control):
+            os.remove(self.control)
+        if cfg["repeating"]:
+            eng.cancelMonitorEvent.set()
+            eng.process = StubProc(reason)
+            eng.kernelCompleted = True
+            eng.lastExecution = False
+            return "none"
+        if first and not no_initial_run:
+            self.flags["initial"] = True
+            try:
+                eng.run()                           # first launch of the component's task
+            finally:
+                self.flags["initial"] = False
+        if pending:
+            start = pending.pop(0)
+            del pending[:]
+            script[:] = [(inp.get("launch") or "task", reason)]
+            start.on_next(0)                        # LaunchTask .. HandleTaskExit run synchronously
+            label = launch_kind(inp) if not script else "not-launched"
+            del script[:]
+            return label
+        if eng.process is not None:
+            eng.process = FakeTask(reason)          # _setExitReason prefers the task's own exit reason
+        eng._setExitReason(reason)
+        return "none"
+
+
+def impl_run(case, root):
+    """Runs one history on the real code: one experiment with the component(s) of the case, every exit of the history
+    delivered to its component.  Returns {"events": [...], "seen": [...], "hookOn": [...]} or {"error": name}."""
+    S = _setup()
+    C, E, TU = S["C"], S["E"], S["TU"]
+    comps_cfg = comps_of(case)
+    tmp = tempfile.mkdtemp(prefix="h-", dir=root)
+    restore_logging = _ambient_logging(case.get("log"))
+    try:
+        try:
+            exp = TU.experiment_from_flowir(flowir_for_case(case), tmp, extra_files=hook_files_for_case(case),
+                                            checkExecutables=False)
+            ctl, comps = TU.new_controller(exp)
+            # what Controller.initialise records about the stage; its subscriptions are not made: the harness
+            # delivers the post-mortem notification itself
+            ctl.currentStage = exp._stages[0]
+        except Exception as exc:  # noqa
+            return {"error": "build:" + type(exc).__name__, "detail": str(exc)[:300]}
+        by_name = {c.specification.identification.componentName: c for c in comps[0]}
+        driven = []
+        for name, cfg in comps_cfg:
+            comp = by_name.get(name)
+            if comp is None:
+                return {"error": "component-missing:" + name}
+            want = E.RepeatingEngine if cfg["repeating"] else E.Engine
+            if type(comp.engine) is not want:
+                return {"error": "engine-type:" + type(comp.engine).__name__}
+            driven.append(_Driven(S, cfg, comp))
+        seen_policy = [d.seen() for d in driven]
         S["threads"] = 0
         events = []
         launches = []
-        control = os.path.join(eng.job.directory, "CONTROL")
         for step_no, inp in enumerate(case["inps"]):
+            k = inp.get("comp", 0)
+            d = driven[k]
+            cfg, eng, comp = d.cfg, d.eng, d.comp
             reason = inp["reason"]
-            os.environ["C12_HOOK"] = inp["hook"]
+            os.environ["C12_HOOK"] = inp.get("hook") or "junk"
             os.environ["C12_HOOK_VARIANT"] = str(inp.get("variant", 0))
-            flags["run_fails"] = False
+            d.flags["run_fails"] = False
             S["thread_fails"] = bool(inp["runFails"])
             S["stable"] = bool(inp["stable"])
-            if inp["control"]:
-                with open(control, "w") as fh:
-                    fh.write("dlmeso\nsteps 10\nfinish\n")
-            elif os.path.exists(control):
-                os.remove(control)
-            # the launch and the task exit
-            if cfg["repeating"]:
-                eng.cancelMonitorEvent.set()
-                eng.process = StubProc(reason)
-                eng.kernelCompleted = True
-                eng.lastExecution = False
-                launches.append("none")
-            else:
-                if step_no == 0 and not case.get("noInitialRun"):
-                    flags["initial"] = True
-                    try:
-                        eng.run()                           # first launch of the component's task
-                    finally:
-                        flags["initial"] = False
-                if pending:
-                    start = pending.pop(0)
-                    del pending[:]
-                    script[:] = [(inp.get("launch") or "task", reason)]
-                    start.on_next(0)                        # LaunchTask .. HandleTaskExit run synchronously
-                    launches.append(launch_kind(inp) if not script else "not-launched")
-                    del script[:]
-                else:
-                    if eng.process is not None:
-                        eng.process = FakeTask(reason)      # _setExitReason prefers the task's own exit reason
-                    eng._setExitReason(reason)
-                    launches.append("none")
+            launches.append(d.task_exits(inp, case.get("noInitialRun")))
             if not cfg["repeating"] and eng.exitReason() != reason:
                 return {"error": "exit-reason-not-delivered", "detail": {"step": step_no, "wanted": reason,
                                                                          "engine": eng.exitReason(),
                                                                          "launch": launches[-1]}}
-            flags["run_fails"] = bool(inp["runFails"])
-            before = runs["n"] + S["threads"]
+            d.flags["run_fails"] = bool(inp["runFails"])
+            before = d.total()
+            others_before = [o.total() for o in driven]
+            threads_before = S["threads"]
             os.environ["C12_HOOK_CALLS"] = "0"
+            os.environ["C12_HOOK_FILES"] = ""
             try:
                 if case["fin"]:
                     seen = {}
@@ -399,13 +498,18 @@ def impl_run(case, root):
                     code = ctl._restartComponent(comp)
             except Exception as exc:  # noqa
                 code = "raised:" + type(exc).__name__
+            d.threads += S["threads"] - threads_before
             ev = {"code": code, "restarts": int(eng.restarts), "resub": int(eng.resubmissionAttempts()),
-                  "runs": runs["n"] + S["threads"], "shutdown": bool(eng.isShutdown),
-                  "started": runs["n"] + S["threads"] - before, "state": str(comp.state),
-                  "finishCalled": bool(comp.finishCalled), "launch": launches[-1], "created": runs["created"],
+                  "runs": d.total(), "shutdown": bool(eng.isShutdown),
+                  "started": d.total() - before, "state": str(comp.state),
+                  "finishCalled": bool(comp.finishCalled), "launch": launches[-1], "created": d.runs["created"],
                   "hookCalls": int(os.environ.get("C12_HOOK_CALLS", "0"))}
+            if "comps" in case:
+                ev["comp"] = k
+                ev["hookFiles"] = [f for f in os.environ.get("C12_HOOK_FILES", "").split(";") if f]
+                ev["othersStarted"] = sum(o.total() - b for j, (o, b) in enumerate(zip(driven, others_before)) if j != k)
             events.append(ev)
-        return {"events": events, "hookOn": hook_on, "launches": launches}
+        return {"events": events, "hookOn": seen_policy[0]["hookOn"] or [], "seen": seen_policy, "launches": launches}
     finally:
         restore_logging()
         shutil.rmtree(tmp, ignore_errors=True)
@@ -416,12 +520,35 @@ def impl_run(case, root):
 # ----------------------------------------------------------------------------------------
 
 def oracle(case, out):
-    """list of (slug, detail)"""
-    cfg = case["cfg"]
-    bad = []
+    """list of (slug, detail): every component of the case is judged by the policy IT wrote, on its own exits"""
     if "error" in out:
         return [("harness-could-not-drive-the-code:" + out["error"], out)]
-    listed = out["hookOn"]
+    bad = []
+    for k, (name, cfg) in enumerate(comps_of(case)):
+        mine = [(j, inp, ev) for j, (inp, ev) in enumerate(zip(case["inps"], out["events"])) if inp.get("comp", 0) == k]
+        fixed = own_answer(case, k)
+        own = own_file_name(cfg)
+        for what, detail in oracle_component(cfg, case["fin"], mine, out["seen"][k], fixed, own, "comps" in case):
+            if "comps" in case:
+                detail = dict(detail, component=name)
+            bad.append((what, detail))
+    return bad
+
+
+def oracle_component(cfg, fin, mine, seen, fixed, own, several):
+    """`mine` = [(position in the history, input, event)] of one component; `seen` = the policy the runtime reads for
+    it; `fixed` = the answer its own hook file always gives (several-components cases), `own` = that file's name"""
+    bad = []
+    # the policy the runtime works with is the policy the component wrote (a missing list means the documented default,
+    # a missing maximum / hook file stay missing: "three by default", "unlimited ... when a restart hook file is named
+    # without a maximum")
+    written = written_policy(cfg)
+    listed = list(cfg["hookOn"]) if cfg["hookOn"] is not None else list(DEFAULT_LISTED)
+    if sorted(seen["hookOn"] or []) != sorted(listed) or seen["hookOn"] is None \
+            or seen["maxRestarts"] != written["maxRestarts"] \
+            or type(seen["maxRestarts"]) is not type(written["maxRestarts"]) \
+            or seen["hookFile"] != written["hookFile"]:
+        bad.append(("policy-seen-by-runtime-differs-from-policy-written", {"written": written, "seen": seen}))
     if cfg["maxRestarts"] is not None:
         maximum = cfg["maxRestarts"]
     elif cfg["hookFile"]:
@@ -431,8 +558,13 @@ def oracle(case, out):
     streak = 0
     restarts_started = 0        # times the task was started again for a reason other than a failed submission
     final_at = None
-    for k, (inp, ev) in enumerate(zip(case["inps"], out["events"])):
+    for k, inp, ev in mine:
         reason = inp["reason"]
+        hook = fixed if several else inp["hook"]
+        if several and ev.get("othersStarted"):
+            bad.append(("exit-of-one-component-starts-another-components-task", {"step": k, "event": ev}))
+        if several and any(f != own for f in ev.get("hookFiles", [])):
+            bad.append(("restart-decided-by-another-components-hook-file", {"step": k, "own_hook_file": own, "event": ev}))
         if str(ev["code"]).startswith("raised:") or ev["code"] == "no-decision":
             bad.append(("restart-decision-raises", {"step": k, "event": ev}))
         started = ev["started"]
@@ -448,9 +580,10 @@ def oracle(case, out):
             if reason != "SubmissionFailed":
                 restarts_started += started if started > 0 else 1
             # every restart-hook outcome: the hook module's Restart() was really called at this exit and refused
-            if ev.get("hookCalls", 0) > 0 and inp["hook"] in REFUSING_HOOKS:
+            # (several components: a restart hook was called at this exit and the component's OWN hook file refuses)
+            if ev.get("hookCalls", 0) > 0 and hook in REFUSING_HOOKS:
                 bad.append(("task-started-again-although-restart-hook-refused",
-                            {"step": k, "reason": reason, "hook": inp["hook"], "outcome": REFUSING_HOOKS[inp["hook"]],
+                            {"step": k, "reason": reason, "hook": hook, "outcome": REFUSING_HOOKS[hook],
                              "event": ev}))
         if ev["code"] == INITIATED and reason == "SubmissionFailed":
             streak += 1
@@ -464,7 +597,7 @@ def oracle(case, out):
             if restarts_started > maximum:
                 bad.append(("task-restarted-more-often-than-maximum", {"step": k, "started": restarts_started,
                                                                         "maximum": maximum}))
-        if case["fin"]:
+        if fin:
             if ev["code"] != INITIATED:
                 if ev["state"] not in FINAL_STATES or not ev["finishCalled"] or not ev["shutdown"]:
                     bad.append(("refused-restart-without-final-state", {"step": k, "event": ev}))
@@ -477,19 +610,20 @@ def oracle(case, out):
 
 def classify_sf_in_hook_on(what, case, detail):
     """defect #5: SubmissionFailed listed in restartHookOn bypasses the cap (only that)"""
-    return what == "more-than-five-consecutive-resubmissions" and "SubmissionFailed" in (case["cfg"].get("hookOn") or [])
+    return what == "more-than-five-consecutive-resubmissions" and "cfg" in case and \
+        "SubmissionFailed" in (case["cfg"].get("hookOn") or [])
 
 
 def classify_repeating_unlisted(what, case, detail):
     """RepeatingEngine restarted by the unstable-system path although ResourceExhausted is not listed"""
-    return what == "task-started-again-for-unlisted-reason" and case["cfg"]["repeating"] and \
+    return what == "task-started-again-for-unlisted-reason" and "cfg" in case and case["cfg"]["repeating"] and \
         detail.get("reason") == "ResourceExhausted"
 
 
 def classify_repeating_max0(what, case, detail):
     """RepeatingEngine ignores an explicit maxRestarts of 0 (restarts once)"""
     return (what in ("restart-counter-exceeds-maximum", "task-restarted-more-often-than-maximum")
-            and case["cfg"]["repeating"] and case["cfg"]["maxRestarts"] == 0)
+            and "cfg" in case and case["cfg"]["repeating"] and case["cfg"]["maxRestarts"] == 0)
 
 
 CLASSIFIERS = {"c12_submissionfailed_listed_bypasses_cap": classify_sf_in_hook_on,
@@ -590,6 +724,152 @@ def _cfg(maxRestarts=None, hookFile=None, hookOn=None, disk="scripted", backend=
             "sim_restart": sim_restart, "repeating": repeating}
 
 
+# ---- several components of one experiment, every hook file with its own fixed answer ----
+
+COMP_NAMES = ["alpha", "beta", "gamma", "delta", "epsilon"]
+FILE_NAMES = ["restart.py", "allow.py", "refuse.py", "custom.py", "other.py"]
+ALLOWING = ["ctx:RestartContextRestartPossible", "yes"]
+VANILLA = ["junk", "ioError", "ctx:RestartContextHookNotAvailable", "ctx:RestartContextRestartConditionsNotMet"]
+
+
+def _file(answer, variant=0, disk="fixed"):
+    return {"disk": disk, "answer": answer, "variant": variant} if disk == "fixed" else {"disk": disk}
+
+
+def _mcomp(name, files, hookFile=None, hookOn=("ResourceExhausted",), maxRestarts=None, backend="local", sim_restart=None):
+    cfg = _cfg(maxRestarts=maxRestarts, hookFile=hookFile, hookOn=None if hookOn is None else list(hookOn),
+               backend=backend, sim_restart=sim_restart)
+    own = own_file_name(cfg)
+    cfg["disk"] = files[own]["disk"] if own in files else "absent"
+    return {"name": name, "cfg": cfg}
+
+
+def _minp(comp, reason, control=False, run_fails=False, stable=True, launch="task"):
+    return {"comp": comp, "reason": reason, "control": control, "runFails": run_fails, "stable": stable, "launch": launch}
+
+
+def gen_multi(rng, maxlen):
+    nfiles = rng.choice([2, 2, 3, 4, 5])
+    names = rng.sample(FILE_NAMES, nfiles)
+    files = {}
+    for j, n in enumerate(names):
+        k = rng.random()
+        if j == 0 or k < 0.3:
+            files[n] = _file(rng.choice(ALLOWING))
+        elif j == 1 or k < 0.75:
+            files[n] = _file(rng.choice(sorted(REFUSING_HOOKS)), rng.randrange(12))
+        elif k < 0.9:
+            files[n] = _file(rng.choice(VANILLA), rng.randrange(12))
+        else:
+            files[n] = _file(None, disk=rng.choice(["broken:noattr", "broken:syntax", "importerror"]))
+    ncomp = rng.choice([2, 2, 3, 3, 4, 5])
+    comps = []
+    sim = rng.random() < 0.12                   # one backend per experiment (the loader refuses to mix simulator and real)
+    for j in range(ncomp):
+        if j < len(names):
+            own = names[j]                      # the first components use different files
+        else:
+            own = rng.choice(names + ["", "missing.py"])
+        hook_file = None if own == "restart.py" else own
+        k = rng.random()
+        if k < 0.1:
+            on = None
+        elif k < 0.17:
+            on = []
+        else:
+            on = ["ResourceExhausted"] + [r for r in ("KnownIssue", "SystemIssue", "UnknownIssue") if rng.random() < 0.4]
+            rng.shuffle(on)
+        comps.append(_mcomp(COMP_NAMES[j], files, hookFile=hook_file, hookOn=on,
+                            maxRestarts=rng.choice([None, None, None, -1, 1, 2, 5]),
+                            backend="simulator" if sim else "local", sim_restart=rng.choice(["no", "yes"]) if sim else None))
+    fin = rng.random() < 0.6
+    n = min(maxlen, rng.choice([3, 5, 8, 12, 20, 30]))
+    order = rng.choice(["random", "allowing-first", "round-robin", "blocks"])
+    allowing = [j for j in range(ncomp) if own_answer({"comps": comps, "files": files}, j) in ALLOWING]
+    inps = []
+    for step in range(n):
+        if order == "allowing-first" and step < 2 and allowing:
+            k = rng.choice(allowing)
+        elif order == "round-robin":
+            k = step % ncomp
+        elif order == "blocks":
+            k = (step * ncomp) // n
+        else:
+            k = rng.randrange(ncomp)
+        listed = comps[k]["cfg"]["hookOn"] if comps[k]["cfg"]["hookOn"] is not None else DEFAULT_LISTED
+        r = rng.random()
+        if listed and r < 0.8:
+            reason = rng.choice(listed)
+        elif r < 0.9:
+            reason = "SubmissionFailed"
+        else:
+            reason = rng.choice(REASONS)
+        inps.append(_minp(k, reason, control=rng.random() < 0.2, stable=rng.random() < 0.85,
+                          launch=rng.choice(["submitError:os", "submitError:launch"])
+                          if reason == "SubmissionFailed" and rng.random() < 0.3 else "task"))
+    return {"comps": comps, "files": files, "fin": fin, "explicit": rng.random() < 0.3, "inps": inps}
+
+
+def multi_corpus():
+    """the family: components of ONE experiment with different hook files and different hook outcomes (possible / not
+    possible / not required / failed / raising / vanilla), restarted in varying orders"""
+    cs = []
+    outcomes = ["ctx:RestartContextRestartNotPossible", "ctx:RestartContextRestartNotRequired", "no",
+                "ctx:RestartContextHookFailed", "raises"]
+    for n, refusal in enumerate(outcomes):
+        files = {"allow.py": _file(ALLOWING[n % 2]), "refuse.py": _file(refusal, n)}
+        comps = [_mcomp("first", files, hookFile="allow.py", maxRestarts=[None, 2, -1][n % 3]),
+                 _mcomp("second", files, hookFile="refuse.py", maxRestarts=[None, 2, -1][n % 3])]
+        for fin in (True, False):
+            # the permissive one restarts first / the refusing one is asked first / interleaved
+            cs.append({"comps": comps, "files": files, "fin": fin, "explicit": False,
+                       "inps": [_minp(0, "ResourceExhausted"), _minp(1, "ResourceExhausted"), _minp(1, "ResourceExhausted"),
+                                _minp(0, "ResourceExhausted")]})
+            cs.append({"comps": comps, "files": files, "fin": fin, "explicit": False,
+                       "inps": [_minp(1, "ResourceExhausted"), _minp(0, "ResourceExhausted"), _minp(0, "ResourceExhausted"),
+                                _minp(1, "ResourceExhausted")]})
+    # the default restart.py of one component and a named file of another; a third with '' (no hook) and one whose
+    # named file does not exist; an empty and a missing restartHookOn next to each other
+    files = {"restart.py": _file("ctx:RestartContextRestartNotPossible"), "custom.py": _file("yes"),
+             "other.py": _file("junk", 3)}
+    comps = [_mcomp("alpha", files, hookFile="custom.py", hookOn=["KnownIssue", "ResourceExhausted"]),
+             _mcomp("beta", files, hookFile=None, hookOn=["KnownIssue", "ResourceExhausted"]),
+             _mcomp("gamma", files, hookFile="", hookOn=["ResourceExhausted"]),
+             _mcomp("delta", files, hookFile="missing.py", hookOn=[]),
+             _mcomp("epsilon", files, hookFile="other.py", hookOn=None, maxRestarts=1)]
+    for fin in (True, False):
+        cs.append({"comps": comps, "files": files, "fin": fin, "explicit": False,
+                   "inps": [_minp(0, "KnownIssue"), _minp(1, "KnownIssue"), _minp(2, "ResourceExhausted", control=True),
+                            _minp(3, "ResourceExhausted"), _minp(4, "ResourceExhausted"), _minp(0, "ResourceExhausted"),
+                            _minp(1, "ResourceExhausted"), _minp(4, "ResourceExhausted"), _minp(4, "KnownIssue"),
+                            _minp(2, "ResourceExhausted"), _minp(0, "SubmissionFailed"), _minp(3, "SubmissionFailed")]})
+    return cs
+
+
+def policy_cases(rng, quick):
+    """the family: the restart policy as WRITTEN in a FlowIR document (restartHookOn missing / empty / every subset of the
+    schema's reasons; maxRestarts missing / -1 / 0 / ...; restartHookFile missing / '' / named) goes through the real
+    loader, and the restart decision for an exit with every exit reason is driven with the loaded policy"""
+    import itertools
+    subsets = [None, []] + [[r] for r in SCHEMA_REASONS]
+    rest = [list(c) for n in range(2, len(SCHEMA_REASONS) + 1) for c in itertools.combinations(SCHEMA_REASONS, n)]
+    subsets += rng.sample(rest, 6) if quick else rest
+    cs = []
+    for j, on in enumerate(subsets):
+        basic = on is None or len(on) <= 1
+        maxima = [None, 0, -1, 1] if basic else [rng.choice([None, 0, -1, 1, 3])]
+        for mx in maxima:
+            for hook_file in ([None, "", "custom.py"] if (basic and mx in (None, 0)) else [rng.choice([None, "", "custom.py"])]):
+                cfg = _cfg(maxRestarts=mx, hookFile=hook_file, hookOn=on, disk="scripted",
+                           backend="simulator" if (j + len(cs)) % 7 == 3 else "local", sim_restart=None)
+                reasons = list(REASONS)
+                rng.shuffle(reasons)
+                fin = bool(len(cs) % 2)
+                cs.append({"cfg": cfg, "fin": fin, "explicit": False,
+                           "inps": [_inp(r, "yes") for r in (["ResourceExhausted"] if fin else []) + reasons]})
+    return cs
+
+
 def corpus_cases():
     cs = []
     # the Witness inputs (Witness/C12.lean)
@@ -665,8 +945,20 @@ def load_corpus_dir():
 
 
 def tags_for(case, out):
+    if "comps" in case:
+        t = ["mode:" + ("postMortemCheck" if case["fin"] else "_restartComponent"), "several-components:%d" % len(case["comps"]),
+             "hook-files:%d" % len(case["files"])]
+        for ev in out.get("events", []):
+            t.append("code:" + str(ev["code"]))
+            if ev.get("hookCalls", 0) > 0:
+                t.append("own-file-asked:" + str(own_answer(case, ev["comp"])))
+        return t
     cfg = case["cfg"]
-    t = ["mode:" + ("postMortemCheck" if case["fin"] else "_restartComponent"),
+    if cfg["hookOn"] is None:
+        wr = "missing"
+    else:
+        wr = "[]" if not cfg["hookOn"] else "%d-reasons" % len(cfg["hookOn"])
+    t = ["mode:" + ("postMortemCheck" if case["fin"] else "_restartComponent"), "written-restartHookOn:" + wr,
          "engine:" + ("repeating" if cfg["repeating"] else "engine"), "backend:" + cfg["backend"],
          "disk:" + cfg["disk"], "hookFile:" + repr(cfg["hookFile"]), "maxRestarts:" + repr(cfg["maxRestarts"]),
          "len:%d" % (10 * (len(case["inps"]) // 10))]
@@ -683,6 +975,46 @@ def tags_for(case, out):
     return t
 
 
+def isolation_failures(case, out, root):
+    """several components: every component, run ALONE in an experiment of its own (same hook files on disk) on its own
+    exits, must give the same answers as inside the interleaved history"""
+    bad = []
+    if "comps" not in case or "events" not in out:
+        return bad
+    for k, comp in enumerate(case["comps"]):
+        own = [dict(i, comp=0) for i in case["inps"] if i.get("comp", 0) == k]
+        if not own:
+            continue
+        alone = dict(case, comps=[comp], inps=own)
+        o = impl_run(alone, root)
+        keys = ("code", "restarts", "resub", "runs", "shutdown", "started", "state", "hookCalls", "hookFiles")
+        together = [{x: e[x] for x in keys} for e in out["events"] if e["comp"] == k]
+        single = [{x: e[x] for x in keys} for e in o.get("events", [])]
+        if together != single:
+            pos = next((j for j, (x, y) in enumerate(zip(together, single)) if x != y), None)
+            bad.append(("restart-decision-depends-on-other-components",
+                        {"component": comp["name"], "exit_of_that_component": pos,
+                         "with_the_others": together[pos] if pos is not None else together,
+                         "alone": single[pos] if pos is not None else o}))
+    return bad
+
+
+def failures(case, out, root):
+    return oracle(case, out) + isolation_failures(case, out, root)
+
+
+def model_request(c, o):
+    inps = [{"reason": i["reason"], "hook": i.get("hook") or "junk", "control": bool(i["control"]),
+             "runFails": bool(i["runFails"]), "stable": bool(i["stable"]), "launch": la, "comp": i.get("comp", 0)}
+            for i, la in zip(c["inps"], o["launches"])]
+    if "comps" in c:
+        return {"op": "mexec", "fin": bool(c["fin"]),
+                "comps": [dict(model_cfg(cfg), file=own_file_name(cfg) or "") for _, cfg in comps_of(c)],
+                "files": {n: (sp["answer"] if sp["disk"] == "fixed" else "junk") for n, sp in c["files"].items()},
+                "inps": inps}
+    return {"op": "exec", "old": False, "fin": bool(c["fin"]), "cfg": model_cfg(c["cfg"]), "inps": inps}
+
+
 def check_cases(ctx, cases, root, n_corpus=0):
     outs = [impl_run(c, root) for c in cases]
     mouts = None
@@ -691,10 +1023,7 @@ def check_cases(ctx, cases, root, n_corpus=0):
         idx = []
         for k, (c, o) in enumerate(zip(cases, outs)):
             if "events" in o:
-                reqs.append({"op": "exec", "old": False, "fin": bool(c["fin"]), "cfg": model_cfg(c["cfg"], o["hookOn"]),
-                             "inps": [{"reason": i["reason"], "hook": i["hook"], "control": bool(i["control"]),
-                                       "runFails": bool(i["runFails"]), "stable": bool(i["stable"]), "launch": la}
-                                      for i, la in zip(c["inps"], o["launches"])]})
+                reqs.append(model_request(c, o))
                 idx.append(k)
         answers = ctx.model(reqs)
         mouts = dict(zip(idx, answers))
@@ -702,17 +1031,23 @@ def check_cases(ctx, cases, root, n_corpus=0):
         initiated = sum(1 for e in o.get("events", []) if e["code"] == INITIATED)
         refused = sum(1 for e in o.get("events", []) if e["code"] != INITIATED)
         ctx.case(c, nontrivial=(initiated >= 1 and refused >= 1), tags=tags_for(c, o))
-        for what, detail in oracle(c, o):
+        for what, detail in failures(c, o, root):
             ctx.fail(what, c, detail)
             by = ctx.extra.setdefault("oracle_failures_by_slug", {}).setdefault(
                 "corpus" if k < n_corpus else "generated", {})
             by[what] = by.get(what, 0) + 1
         if mouts is not None and k in mouts:
-            keys = ("code", "restarts", "resub", "runs", "shutdown")
-            ctx.compare("codes, Engine.restarts, resubmissionAttempts, #run(), isShutdown per exit == Restart.exec",
+            keys = ("code", "restarts", "resub", "runs", "shutdown") + (("comp",) if "comps" in c else ())
+            ctx.compare("codes, Engine.restarts, resubmissionAttempts, #run(), isShutdown per exit == Restart.exec"
+                        if "comps" not in c else
+                        "several components: codes, Engine.restarts, resubmissionAttempts, #run(), isShutdown per exit == Restart.mexec",
                         c, [{x: e[x] for x in keys} for e in mouts[k]["events"]],
                         [{x: e[x] for x in keys} for e in o["events"]])
-            if c["cfg"]["disk"] == "scripted":
+            mseen = mouts[k]["seen"] if "comps" in c else [mouts[k]["seen"]]
+            ctx.compare("restart policy the runtime reads (restartHookOn, maxRestarts, restartHookFile) == Restart.load of the "
+                        "policy written", c, mseen, o["seen"])
+            if all(cfg["disk"] in ("scripted", "fixed", "absent") for _, cfg in comps_of(c)) and (
+                    "comps" in c or c["cfg"]["disk"] == "scripted"):
                 ctx.compare("the hook module's Restart() is called at this exit == Restart.stepAsksHook", c,
                             list(mouts[k]["asked"]), [e["hookCalls"] > 0 for e in o["events"]])
 
@@ -734,6 +1069,25 @@ def order_suite():
     suite.append({"cfg": _cfg(hookOn=listed, backend="simulator"), "fin": False, "explicit": False, "inps": hist})
     suite.append({"cfg": _cfg(hookOn=["ResourceExhausted"], repeating=True), "fin": False, "explicit": True,
                   "inps": [_inp("ResourceExhausted"), _inp("ResourceExhausted")]})
+    # several components per experiment; the same component and hook file names in different experiment instances with
+    # swapped / different contents and roles
+    mh = [_minp(0, "ResourceExhausted"), _minp(1, "ResourceExhausted"), _minp(1, "KnownIssue"), _minp(0, "KnownIssue"),
+          _minp(1, "ResourceExhausted"), _minp(0, "SubmissionFailed"), _minp(0, "ResourceExhausted")]
+    both = ["KnownIssue", "ResourceExhausted"]
+    for fa, fb in ((_file("yes"), _file("ctx:RestartContextRestartNotPossible")),
+                   (_file("raises", 2), _file("ctx:RestartContextRestartPossible")),
+                   (_file("no"), _file("junk", 5))):
+        files = {"allow.py": fa, "refuse.py": fb}
+        suite.append({"comps": [_mcomp("first", files, hookFile="allow.py", hookOn=both),
+                                _mcomp("second", files, hookFile="refuse.py", hookOn=both)],
+                      "files": files, "fin": False, "explicit": False, "inps": mh})
+    files = {"restart.py": _file("ctx:RestartContextHookFailed"), "custom.py": _file("yes")}
+    suite.append({"comps": [_mcomp("comp", files, hookFile=None, hookOn=both, maxRestarts=2),
+                            _mcomp("first", files, hookFile="custom.py", hookOn=both)],
+                  "files": files, "fin": True, "explicit": False, "inps": mh})
+    # an explicit empty list / a missing list, same names
+    suite.append({"cfg": _cfg(hookOn=[]), "fin": False, "explicit": False, "inps": hist})
+    suite.append({"cfg": _cfg(hookOn=None, maxRestarts=0), "fin": False, "explicit": False, "inps": hist})
     return suite
 
 
@@ -847,7 +1201,7 @@ def make_shrinker():
                 if not inps:
                     return False
                 c = dict(case, inps=inps)
-                return any(w == what for w, _ in oracle(c, impl_run(c, root)))
+                return any(w == what for w, _ in failures(c, impl_run(c, root), root))
             inps = shrink_list(case["inps"], fails, max_steps=250)
             return dict(case, inps=inps) if fails(inps) else case
         finally:
@@ -865,10 +1219,16 @@ def run(ctx):
                 "exit reason the task reports, hook answer out of 6 contexts/True/False/raising/IOError/12 junk values, CONTROL "
                 "file, run() raising, system stable; styles incl. faults inside the user's hook - raising / reporting failure / "
                 "refusing - at any point of a history of listed exits); maxRestarts up to 11; 12% of the cases under an ambient log "
-                "level debug/info/warning with the records really handled; a suite of 14 cases with colliding names (hooks/restart.py, "
-                "hooks/custom.py with different contents and roles) run first thing, again after all other cases (backwards, "
-                "shuffled, forwards) and in two fresh interpreters (backwards; forwards under another hash seed) with identical "
-                "answers required; mode = real Controller._restartComponent (history continues after "
+                "level debug/info/warning with the records really handled; the policy as WRITTEN goes through the real FlowIR loader "
+                "in every case (restartHookOn missing / [] / every singleton / subsets (all 64 in thorough) x maxRestarts missing/0/-1/.. x "
+                "restartHookFile missing/''/named, each followed by an exit with every exit reason) and the policy the runtime reads is "
+                "compared with it; experiments with 2-5 components using 2-5 different hook files with fixed, different answers "
+                "(allowing / not possible / not required / False / failed / raising / vanilla / broken modules; restart.py, '', a "
+                "missing file) restarted in interleaved orders (random, permissive first, round-robin, blocks), each component "
+                "also run alone on its own exits; a suite of 20 cases with colliding names (hooks/restart.py, hooks/custom.py, "
+                "allow.py/refuse.py with different or swapped contents and roles, components first/second/comp) run first thing, "
+                "again after all other cases (backwards, shuffled, forwards) and in two fresh interpreters (backwards; forwards under "
+                "another hash seed) with identical answers required; mode = real Controller._restartComponent (history continues after "
                 "refusals) or real Controller.postMortemCheck (refusal finalises). Non-trivial = the history contains at least "
                 "one initiated and at least one refused restart; distinct by canonical JSON.")
     ctx.assumptions = [
@@ -893,7 +1253,7 @@ def run(ctx):
     try:
         rng = ctx.rng
         quick = ctx.tier == "quick"
-        cases = corpus_cases() + load_corpus_dir()
+        cases = corpus_cases() + multi_corpus() + load_corpus_dir()
         if os.environ.get("C12_NO_CORPUS"):        # switch only for self-tests of the generator
             cases = []
         n_corpus = len(cases)
@@ -912,6 +1272,9 @@ def run(ctx):
             cases.append(gen_case(rng, cfg, True, 40))
             if rng.random() < 0.3:
                 cases.append(gen_case(rng, cfg, False, 40))
+        cases += policy_cases(rng, quick)
+        for _ in range(40 if quick else 250):
+            cases.append(gen_multi(rng, 30))
         check_cases(ctx, cases, root, n_corpus)
         check_schema(ctx, root)
         # ... and again after everything else, backwards and shuffled
@@ -923,6 +1286,7 @@ def run(ctx):
         compare_with_child(ctx, suite, ks, collect_child(children[1]), first_answers,
                            "result-depends-on-hash-seed", {"fresh_process": True, "hashseed": other_seed})
         ctx.tag("order-independence-suite-runs", 6 * len(suite))
+        ctx.tag("several-components-cases", sum(1 for c in cases if "comps" in c))
     finally:
         os.chdir(cwd)
         shutil.rmtree(root, ignore_errors=True)
